@@ -35,8 +35,10 @@ Integral == {"int8", "uint8", "int16", "uint16", "int32", "uint32", "varint32", 
 Signed == {"int8", "int16", "int32", "varint32", "int64", "varint62"}
 Underlyings == {"none"} \cup Integral \cup {"bool", "float32", "float64", "string", "optuint8", "aliasuint8"}
 EnumMods == {"checked", "unchecked", "compact", "compactunchecked"}
-EnVals == {"implicit", "min1", "min", "max", "max1", "same", "huge"}   \* "same": the value of the first enumerator, written again; "huge": beyond 128 bits
-EnumItems(maxLen) == [u : Underlyings, mod : EnumMods, vals : SeqsOver(EnVals, 0, maxLen), fields : BOOLEAN]
+EnVals == {"implicit", "min1", "min", "max", "max1", "same", "huge", "zero", "one", "two"}   \* "same": the value of the first enumerator, written again; "huge": beyond 128 bits
+EnumItems(maxLen) == [u : Underlyings, mod : EnumMods, vals : SeqsOver(EnVals \ {"zero", "one", "two"}, 0, maxLen), fields : BOOLEAN]
+\* small explicit values in any order mixed with implicit ones: an implicit value is the previous one + 1, wherever that lands
+EnumOrderItems == [u : {"none", "uint8", "int32"}, mod : {"checked"}, vals : SeqsOver({"implicit", "zero", "one", "two"}, 3, 4), fields : BOOLEAN]
 HasRange(u) == u \in Integral \cup {"none", "optuint8", "aliasuint8"}
 IsSigned(u) == u \in Signed
 \* symbolic value [base, off]; for unsigned ranges (and no underlying type) "min" is "zero"
@@ -53,6 +55,9 @@ ValuesOf(vals, i, acc, u) ==
                   [] vals[i] = "max1" -> [base |-> "max", off |-> 1]
                   [] vals[i] = "same" -> IF acc = <<>> THEN [base |-> "zero", off |-> 0] ELSE acc[1]
                   [] vals[i] = "huge" -> [base |-> "max", off |-> 1000 + i]
+                  [] vals[i] = "zero" -> [base |-> "zero", off |-> 0]
+                  [] vals[i] = "one"  -> [base |-> "zero", off |-> 1]
+                  [] vals[i] = "two"  -> [base |-> "zero", off |-> 2]
        IN ValuesOf(vals, i + 1, Append(acc, Norm(v, u)), u)
 InRangeV(v, u) == CASE v.base = "min" -> v.off >= 0
                     [] v.base = "max" -> v.off <= 0
@@ -81,7 +86,7 @@ KeyLegalForm(k) ==
   /\ \/ k.f = "prim" /\ k.n \notin {"float32", "float64"}
      \/ k.f = "named" /\ k.n \in {"cs_ok", "cs_nested_ok", "cs_enumfield", "e_u", "custom", "alias_int", "alias_cs"}
 \* where the key sits: directly in a field, nested as the value of another dictionary, inside a sequence, in a parameter
-KeyItems == [key : KeyForms, at : {"field", "nested", "elem", "param", "alias"}]
+KeyItems == [key : KeyForms, at : {"field", "nested", "elem", "param", "alias", "enfield", "retmember"}]
 VKeys(it) == IF KeyLegalForm(it.key) THEN {} ELSE {"E003", "E004", "E005", "E006"}
 
 ----------------------------------------------------------------------------------------------------
@@ -110,11 +115,12 @@ AttrNames == {"allow", "deprecated", "compress", "slicedFormat", "oneway", "unkn
 \* tuple ending in a stream
 OpTargets == {"operation", "operation_streamparam", "operation_ret", "operation_retstream", "operation_rettuple", "operation_rettuplestream"}
 Targets == {"file", "module", "struct", "field", "interface", "parameter", "retmember", "enum", "enumerator",
-            "custom", "alias", "typeref", "base", "underlying", "enfield", "cstruct", "cenum"} \cup OpTargets
+            "custom", "alias", "typeref", "base", "underlying", "enfield", "cstruct", "cenum",
+            "typeref_enfield", "typeref_param", "typeref_ret", "typeref_elem"} \cup OpTargets
 \* "dupfile": the argument DuplicateFile - a lint of the command line only, no valid argument of the allow attribute
 ArgShapes == {"none", "valid1", "valid2", "invalid", "casewrong", "empty_parens", "dupfile"}
 AttrItems == [a : AttrNames, on : Targets, args : ArgShapes, twice : BOOLEAN]
-IsTypeRefTarget(t) == t \in {"typeref", "base", "underlying"}
+IsTypeRefTarget(t) == t \in {"typeref", "base", "underlying", "typeref_enfield", "typeref_param", "typeref_ret", "typeref_elem"}
 LegalOn(a, t) ==
   CASE a = "allow" -> ~(t = "module" \/ IsTypeRefTarget(t))
     [] a = "deprecated" -> t \notin {"file", "module", "parameter", "retmember"} /\ ~IsTypeRefTarget(t)
@@ -148,6 +154,6 @@ VAttrLists(it) == IF \E i, j \in 1..Len(it.as) : i < j /\ it.as[i] = it.as[j] /\
 ----------------------------------------------------------------------------------------------------
 Violations(fam, it) == CASE fam = "members" -> VMembers(it) [] fam = "enums" -> VEnums(it) [] fam = "keys" -> VKeys(it)
                          [] fam = "stream" -> VStream(it) [] fam = "names" -> VNames(it) [] fam = "attrs" -> VAttrs(it)
-                         [] fam = "attrlists" -> VAttrLists(it)
+                         [] fam = "attrlists" -> VAttrLists(it) [] fam = "enumorder" -> VEnums(it)
 WellFormed(fam, it) == Violations(fam, it) = {}
 ====================================================================================================
